@@ -1013,6 +1013,8 @@ func Describe(run *vlib.Run) {
 		"HTTP leg: one graphql.HTTPHandler per case receives a sequence of POSTs with ONE query text (all arguments through variables): the value; then in random order the same again, a wrong-kind twin (one node replaced by a value of another JSON kind that fmt prints identically: 21/\"21\", true/\"true\", list or object/its printed string), a same-look twin (a different valid value that prints identically: neighbouring strings merged or split, null/\"<nil>\", two string fields folded into one) whose expected value comes from the reference decoder, and an invalid request; valid ones must arrive as sent, invalid ones must come back with errors and no resolver call. " +
 		"Positions leg: the field also lives on a Node object (registered with schemabuilder.Expensive in half of the schemas) whose one shared pointer is reachable through node / self; ONE query selects the field at 2-3 positions (two root fields, an object and the same object below it, root and node), usually under the same alias, each position with its own value and transport, sent through the HTTP handler (rerunner context) and in process; the answer at every position must be the digest of the value sent for that position and the resolvers must have received exactly the values sent. " +
 		"Concurrent leg (every 16th case index in c18; all cases of package c18conc, which is built with -race): 8 clients x 2 requests at the same time on ONE schema (HTTP handler / in-process alternating), each request with its own value and transport of the same args type (in c18: generated shapes, two thirds starting with a TextUnmarshaler field, and every other concurrent case a compile-time struct; in c18conc: only the 8 compile-time args structs CA1..CA8 served by ordinary closures, no reflect.StructOf / reflect.MakeFunc; long texts and an UnmarshalText with a scheduling point); each answer must be the digest of the value that request sent. " +
+		"Paginated leg (every 4th case): Paginated field funcs with their own arguments in both forms (args struct next to first/after/..., and args struct embedding schemabuilder.PaginationArgs) with pointer / `,optional` arguments; request sequences on one schema: valid; invalid because one required custom argument has the wrong kind while every optional argument is given; valid with the optional arguments left out (must arrive nil / zero); half of the cases one request at a time (HTTP handler / in process), half with 4 clients sending (invalid, valid) pairs at the same time. " +
+		"Many-lists leg (every 16th case): graphql.MaxQueryNesting (public knob) is set to 250 for the run; documents only a few levels deep but containing more list literals than that limit (one [][]int64 literal with 260-385 rows, or 90+ aliased selections each carrying list literals) and the same values through variables; every selection's answer must be the digest of its value. " +
 		"Non-trivial = at least 2 of {list, nested input object, pointer/optional tag, named scalar/enum/bytes/time/text, a default transport carried a value}; distinct = args type signature + mutation class.")
 	run.Assume("graphql-go's lexer/parser (third party) reads GraphQL literals as written by gqlQuote / strconv")
 	run.Assume("variables reach graphql.Parse as json.Unmarshal output (map[string]interface{} with float64 numbers), as in graphql/http.go and graphql/server.go")
